@@ -24,34 +24,48 @@ def count_stmts(P):
 
 
 def minimize(P, pred, max_tests=40, log=None):
+    """ddmin over each statement list: the entry function first (that is where most of a generated program's work is),
+    then the other lists, largest first; chunks are halved down to single statements"""
     tests = 0
-    changed = True
-    chunk = 4
-    while changed and tests < max_tests:
-        changed = False
-        for ss in stmt_lists(P):
+
+    def attempt(ss, lo, hi):
+        nonlocal tests
+        saved = ss[lo:hi]
+        del ss[lo:hi]
+        tests += 1
+        try:
+            ok = pred(P)
+        except Exception:
+            ok = False
+        if ok:
+            if log:
+                log("minimise: removed %d statement(s), %d left" % (len(saved), count_stmts(P)))
+            return True
+        ss[lo:lo] = saved
+        return False
+
+    def ddmin(ss):
+        chunk = max(1, len(ss) // 2)
+        while chunk >= 1 and tests < max_tests:
             i = len(ss)
             while i > 0 and tests < max_tests:
                 lo = max(0, i - chunk)
-                # keep a function's final `return` (the reference toolchain requires it)
-                saved = ss[lo:i]
-                if not saved:
-                    break
-                del ss[lo:i]
-                tests += 1
-                ok = False
-                try:
-                    ok = pred(P)
-                except Exception as e:      # printing a broken tree
-                    ok = False
-                if ok:
-                    changed = True
-                    if log:
-                        log("minimise: removed %d statement(s), %d left" % (len(saved), count_stmts(P)))
-                else:
-                    ss[lo:lo] = saved
+                attempt(ss, lo, i)
                 i = lo
-        if not changed and chunk > 1:
-            chunk = 1
-            changed = True
+            if chunk == 1:
+                break
+            chunk //= 2
+
+    for rnd in range(2):
+        lists = stmt_lists(P)
+        main_body = P.main.body if P.main is not None else None
+        lists.sort(key=lambda l: (0 if l is main_body else 1, -len(l)))
+        before = count_stmts(P)
+        for ss in lists:
+            if tests >= max_tests:
+                break
+            if ss:
+                ddmin(ss)
+        if count_stmts(P) == before:
+            break
     return P, tests
